@@ -138,24 +138,29 @@ def coherent (cfg : Cfg) : Option Nat → List In → Bool
 
 /-! ### join_template: the per-event classifier bits its closures amount to -/
 
+/-- the current template's verdict on a continuation (false where `nextCheck` cannot be reached) -/
+def contBit (tcfg : TCfg) (cur : Int) (e : TEv) : Bool :=
+  match nextCheck tcfg cur e with
+  | .ok b => b
+  | .error _ => false
+
 /-- plain view of a template event: `startOK` = some template's StartCheck accepts a string
     value (and that template becomes current), `contOK` = the current template's ContinueCheck,
-    negated when the template says so (false where `nextCheck` is never reached) -/
-def resolve (tcfg : TCfg) : Int → List TIn → List In
-  | _, [] => []
-  | cur, .timeout t :: r => .timeout t :: resolve tcfg cur r
-  | cur, .ev e :: r =>
+    negated when the template says so; second component = `curTemplateIdx` after the call -/
+def resolve1 (tcfg : TCfg) (cur : Int) : TIn → In × Int
+  | .timeout t => (.timeout t, cur)
+  | .ev e =>
     let isStr := match JTree.dig e.root tcfg.path with
       | some node => node.isStr
       | none => false
-    let fi := if isStr then firstIdx e.starts 0 else none
-    match fi with
-    | some i => .ev (e.plain true false) :: resolve tcfg (i : Nat) r
+    match (if isStr then firstIdx e.starts 0 else none) with
+    | some i => (.ev (e.plain true false), ((i : Nat) : Int))
     | none =>
-      let c := match nextCheck tcfg cur e with
-        | .ok b => b
-        | .error _ => false
-      .ev (e.plain false c) :: resolve tcfg cur r
+      (.ev (e.plain false (contBit tcfg cur e)), cur)
+
+def resolve (tcfg : TCfg) : Int → List TIn → List In
+  | _, [] => []
+  | cur, x :: r => (resolve1 tcfg cur x).1 :: resolve tcfg (resolve1 tcfg cur x).2 r
 
 /-! ### executable oracle applied to the implementation's observed result -/
 
